@@ -17,6 +17,8 @@ pub trait TreeApi {
     fn data_len(cap: usize) -> usize;
     /// Apply `op` through a fresh handle; may panic.
     fn call(bytes: &mut [u8], op: &Op) -> String;
+    /// Apply all `ops` through ONE mutable handle; may panic.
+    fn session(bytes: &mut [u8], ops: &[Op]) -> Vec<String>;
 }
 
 fn opt<T: ToString>(o: Option<T>) -> String {
@@ -43,6 +45,39 @@ macro_rules! tree_api {
             }
             fn data_len(cap: usize) -> usize {
                 $mut::<$K, $V>::data_len(cap)
+            }
+            fn session(bytes: &mut [u8], ops: &[Op]) -> Vec<String> {
+                let mut t = $mut::<$K, $V>::from_bytes_mut(bytes);
+                let mut out = vec![];
+                for op in ops {
+                    let k = |i: usize| <$K as Num>::from_i(op.args[i]);
+                    let v = |i: usize| <$V as Num>::from_i(op.args[i]);
+                    out.push(match op.name {
+                        "init" => {
+                            t.initialize(op.args[0] as $cap);
+                            "-".to_string()
+                        }
+                        "ins" => opt(t.insert(k(0), v(1))),
+                        "rem" => opt(t.remove(&k(0)).map(|x| x.to_i())),
+                        "get" | "rget" => opt(t.get(&k(0)).map(|x| x.to_i())),
+                        "has" | "rhas" => t.contains(&k(0)).to_string(),
+                        "upd" => match t.get_mut(&k(0)) {
+                            Some(r) => {
+                                *r = v(1);
+                                "true".to_string()
+                            }
+                            None => "false".to_string(),
+                        },
+                        "gmq" => opt(t.get_mut(&k(0)).map(|x| x.to_i())),
+                        "low" | "rlow" => opt(t.lowest().map(|x| x.to_i())),
+                        "len" | "rlen" => t.len().to_string(),
+                        "cap" | "rcap" => t.capacity().to_string(),
+                        "full" | "rfull" => t.is_full().to_string(),
+                        "empty" | "rempty" => t.is_empty().to_string(),
+                        other => panic!("op {other} not possible in a session"),
+                    });
+                }
+                out
             }
             fn call(bytes: &mut [u8], op: &Op) -> String {
                 let k = |i: usize| <$K as Num>::from_i(op.args[i]);
@@ -349,7 +384,7 @@ impl<A: TreeApi> Sut for TreeSut<A> {
         }
         v
     }
-    fn random_op(&self, rng: &mut Rng, state: &[u8]) -> Op {
+    fn random_op(&self, rng: &mut Rng, state: &[u8], phase: usize) -> Op {
         let d = decode::<A>(state);
         if d.slots > d.cap {
             return Op::new("open", &[]);
@@ -358,7 +393,11 @@ impl<A: TreeApi> Sut for TreeSut<A> {
         let r = rng.below(100);
         // bias towards growth of the tree until it is about full, then churn
         let fullish = d.size * 10 >= d.cap * 8;
-        let ins_p = if fullish { 35 } else { 55 };
+        let ins_p = match phase {
+            0 => 72,
+            2 => 12,
+            _ => if fullish { 35 } else { 55 },
+        };
         if r < ins_p {
             Op::new("ins", &[k, self.ins_val(k)])
         } else if r < 80 {
@@ -402,6 +441,15 @@ impl<A: TreeApi> Sut for TreeSut<A> {
             "upd" => out.result == "false",
             _ => false,
         }
+    }
+    fn sessionable(&self, op: &Op) -> bool {
+        !matches!(op.name, "ext" | "open" | "fill")
+    }
+    fn session(&self, buf: &mut ABuf, ops: &[Op]) -> Option<Vec<String>> {
+        take_log();
+        let r = guarded(|| A::session(buf.bytes_mut(), ops)).ok();
+        take_log();
+        r
     }
     fn apply(&self, buf: &mut ABuf, op: &Op) -> OpOut {
         if op.name == "ext" {
@@ -447,8 +495,33 @@ impl<A: TreeApi> Sut for TreeSut<A> {
         let Some((m, mlen, _mcap)) = self.api_contents(pre) else { return f };
         let Some((q, qlen, qcap)) = self.api_contents(post) else {
             f.push(Finding { property: prop_of(op.name), what: format!("after `{}` a read-only query panics", op.text()) });
+            f.push(Finding { property: "C04", what: format!("after `{}` the read-only view of the bytes panics on a query", op.text()) });
             return f;
         };
+        // C04: the mutable view of the same bytes (when opening it is the identity) reports the same contents
+        if dq.slots <= dq.cap {
+            let mut copy = ABuf::new(post, 1, 0x22);
+            let viaw = guarded(|| {
+                let mut m2 = BTreeMap::new();
+                for k in &self.keys {
+                    if let Some(v) = A::call(copy.bytes_mut(), &Op::new("get", &[*k])).strip_prefix("some ") {
+                        m2.insert(*k, v.parse::<i128>().unwrap());
+                    }
+                }
+                (m2, A::call(copy.bytes_mut(), &Op::new("len", &[])))
+            });
+            match viaw {
+                Ok((m2, l2)) => {
+                    if m2 != q || l2 != qlen.to_string() {
+                        f.push(Finding { property: "C04", what: format!("after `{}` the mutable view reports {:?} (len {}) but the read-only view of the same bytes reports {:?} (len {})", op.text(), m2, l2, q, qlen) });
+                    }
+                    if copy.bytes() != post {
+                        f.push(Finding { property: "C04", what: format!("after `{}` re-opening the buffer mutably and querying it changed bytes", op.text()) });
+                    }
+                }
+                Err(_) => f.push(Finding { property: "C04", what: format!("after `{}` the mutable view of the bytes panics on a query", op.text()) }),
+            }
+        }
         // C10: the decoder recovers exactly the contents the API reports
         if let Some(pe) = &post_entries {
             let dm: BTreeMap<i128, i128> = pe.iter().filter(|(_, k, _)| self.keys.contains(k)).map(|(_, k, v)| (*k, *v)).collect();
